@@ -32,7 +32,7 @@ ASSUMPTIONS = ["rewrites are applied only where representable (stated per case);
                "library-written files store an explicit empty record for every cell of every row; turning explicit empty records into absent ones is applied to whole empty rows only (a storage record of an empty row vs. none)",
                "ref/iwa.py / ref/cellrec.py readings of the formats (validated on the fixture corpus)"]
 OPS = ["perm-reverse", "perm-rotate", "perm-random", "rechunk", "zip-order", "zip-stored", "zip-deflated", "to-package", "to-file", "to-wide", "to-narrow", "add-empty-row-headers",
-       "drop-empty-rows-keep-header", "drop-empty-rows-and-header"]
+       "drop-empty-rows-keep-header", "drop-empty-rows-and-header", "tile-order", "row-record-order"]
 
 
 def rule(tier):
@@ -43,7 +43,7 @@ def rule(tier):
 
 def floors(tier):
     return {"evaluations": 400 if tier == "quick" else 4000, "distinct": 380 if tier == "quick" else 3800,
-            "counters": {"rewrites_compared": 380, "lists_permuted": 800, "rows_offsets_converted": 2000, "empty_row_headers_added": 10, "empty_rows_dropped": 100,
+            "counters": {"tables_with_tile_references_permuted": 2, "tiles_with_row_records_permuted": 50, "rewrites_compared": 380, "lists_permuted": 800, "rows_offsets_converted": 2000, "empty_row_headers_added": 10, "empty_rows_dropped": 100,
                          "package_form_reads": 40, "rechunked_documents": 60, "row_oracle_rows": 5000, "row_oracle_tables": 100, "text_cells_built": 8000,
                          "contract:datalist_key.lookup_value": 25000}}
 
@@ -134,6 +134,16 @@ def apply_rewrite(pkg, ops, rng, rec):
             rec.count("rows_offsets_not_representable", skipped)
             if done:
                 applied.append(op)
+        elif op == "tile-order":
+            n = P.permute_tile_refs(pkg, rng)
+            rec.count("tables_with_tile_references_permuted", n)
+            if n:
+                applied.append(op)
+        elif op == "row-record-order":
+            n = P.permute_row_infos(pkg, rng)
+            rec.count("tiles_with_row_records_permuted", n)
+            if n:
+                applied.append(op)
         elif op == "add-empty-row-headers":
             n = P.add_empty_row_headers(pkg, rng, fraction=rng.choice([1.0, .5]))
             rec.count("empty_row_headers_added", n)
@@ -202,7 +212,7 @@ def compare_case(src, ops, rseed, rec, case, base=None):
             s0, ke0 = base
         groups = set()
         for a in applied:
-            groups.add("list-order" if a.startswith("perm") else "row-records" if a.startswith(("add-empty", "drop-empty")) else "offsets" if a in ("to-wide", "to-narrow")
+            groups.add("list-order" if a.startswith("perm") else "row-records" if a.startswith(("add-empty", "drop-empty")) else "record-order" if a in ("tile-order", "row-record-order") else "offsets" if a in ("to-wide", "to-narrow")
                        else "container" if a in ("to-package", "to-file") else "zip" if a.startswith("zip") else "chunking")
         fx = {"rewrite": "+".join(sorted(groups))}
         try:
